@@ -309,7 +309,7 @@ def cmp_ops(K):
     thr = z3.Real('thr')
     for op, meth in (('gt', '__gt__'), ('lt', '__lt__')):
         for noise in (False, True):
-            for kind in ('float', 'complex'):
+            for kind in ('float', 'complex', 'int'):
                 for tk in ('scalar', 'array', 'esig'):
                     def run(ex):
                         x = mk_esig(ex, 'x', n, noise=noise, kind=kind)
@@ -335,7 +335,7 @@ def cmp_ops(K):
                         hy = list(p.pc) + red.instances(p.ex, [], [i])
                         K.prove(f'valid[{sig}]', hy, z3.And(tonum(d.shape[0]) == n, is01(d.elem((i,)))) if d.ndim == 1 and d.np_dtype == 'uint8' else False,
                                 words='x > thr is a valid binary_sequence of the same length')
-                        if kind == 'float':
+                        if kind in ('float', 'int'):
                             tot = toreal(x.f['signal'].elem((i,)))
                             if noise:
                                 tot = tot + toreal(x.f['noise'].elem((i,)))
